@@ -8,15 +8,19 @@ import (
 	"encoding/json"
 	"fmt"
 	"net"
+	"os"
 	"sort"
+	"strconv"
 	"strings"
 	"sync"
+	"sync/atomic"
 	"testing"
 	"time"
 
 	"tunnox-core/internal/cloud/models"
 	"tunnox-core/internal/cloud/services"
 	"tunnox-core/internal/core/storage"
+	"tunnox-core/internal/core/storage/memory"
 	"tunnox-core/internal/packet"
 	"tunnox-core/internal/protocol/session"
 	"tunnox-core/internal/stream"
@@ -30,7 +34,10 @@ import (
 // per cell; the cell fixes
 //   mapping kind   keyed (created through CloudControl.CreatePortMapping with a secret)
 //                  | conncode (connection code create+activate; such mappings have an
-//                  empty secret)
+//                  empty secret) | serverlisten (ListenClientID 0: the server itself is
+//                  the listening side, UDP-ingress / HTTP-domain style, with a secret;
+//                  the victim's source bridge is made by SessionManager.StartServerTunnel;
+//                  there is no "listen" identity, nobody but the target is a party)
 //   tunnel state   none | waiting (victim source bridge waits locally) | served (victim
 //                  source+target bridged) | remote (victim bridge waits on another node,
 //                  requester is forwarded over the real cross-node TCP link) | racing
@@ -73,7 +80,7 @@ func (c c04Cell) key() string {
 }
 
 var (
-	c04Kinds      = []string{"keyed", "conncode"}
+	c04Kinds      = []string{"keyed", "conncode", "serverlisten"}
 	c04Tunnels    = []string{"none", "waiting", "served"}
 	c04MapStates  = []string{"active", "revoked", "revoked-reactivated", "expired-1s", "expired-1m", "expired-1h", "inactive", "missing"}
 	c04Identities = []string{"unauth", "unauth-p1", "listen", "target", "other"}
@@ -237,6 +244,12 @@ func c04NewWorld(t *testing.T, run *vk.Run, cell c04Cell, idx int) (*c04World, e
 		w.n = newMiniNode(t, miniOpts{NoCommands: true})
 		w.nb = w.n
 	}
+	return w, w.populate(idx)
+}
+
+// populate registers the three clients and creates the cell's mapping.
+func (w *c04World) populate(idx int) error {
+	run, cell := w.run, w.cell
 	w.L, w.T, w.U = w.n.NewClient(""), w.n.NewClient(""), w.n.NewClient("")
 	w.tunnel = fmt.Sprintf("tcp-tunnel-%d-%d", 1700000000000000000+int64(idx), 18080)
 
@@ -252,7 +265,20 @@ func c04NewWorld(t *testing.T, run *vk.Run, cell c04Cell, idx int) (*c04World, e
 			Type: models.MappingTypeAnonymous,
 		})
 		if err != nil {
-			return w, fmt.Errorf("create mapping: %v", err)
+			return fmt.Errorf("create mapping: %v", err)
+		}
+		w.mapID = m.ID
+	case "serverlisten":
+		exp := time.Now().Add(time.Hour)
+		w.secret = fmt.Sprintf("srvsecret-%08x", run.Rand("secret").Int63()+int64(idx))
+		m, err := w.n.CC.CreatePortMapping(&models.PortMapping{
+			ListenClientID: 0, TargetClientID: w.T.ClientID,
+			Protocol: models.ProtocolUDP, SourcePort: 15353, TargetHost: "127.0.0.1", TargetPort: 5353,
+			SecretKey: w.secret, Status: models.MappingStatusActive, ExpiresAt: &exp,
+			Type: models.MappingTypeRegistered, UserID: "verif-user",
+		})
+		if err != nil {
+			return fmt.Errorf("create mapping: %v", err)
 		}
 		w.mapID = m.ID
 	case "conncode":
@@ -260,18 +286,18 @@ func c04NewWorld(t *testing.T, run *vk.Run, cell c04Cell, idx int) (*c04World, e
 			TargetClientID: w.T.ClientID, TargetAddress: "tcp://127.0.0.1:8080", CreatedBy: "verif",
 		})
 		if err != nil {
-			return w, fmt.Errorf("create code: %v", err)
+			return fmt.Errorf("create code: %v", err)
 		}
 		m, err := w.n.CCS.ActivateConnectionCode(&services.ActivateConnectionCodeRequest{
 			Code: code.Code, ListenClientID: w.L.ClientID, ListenAddress: "0.0.0.0:18080",
 		})
 		if err != nil {
-			return w, fmt.Errorf("activate code: %v", err)
+			return fmt.Errorf("activate code: %v", err)
 		}
 		w.mapID = m.ID
 		w.secret = m.SecretKey // empty on the current tree
 	}
-	return w, nil
+	return nil
 }
 
 // open sends a TunnelOpen on e's connection and parses the acknowledgement out of the
@@ -335,6 +361,16 @@ func (w *c04World) victimListenOpen() error {
 }
 
 func (w *c04World) victimListenPrepare() error {
+	if w.cell.Kind == "serverlisten" {
+		// the server's own ingress is the source: one end of a pipe handed to StartServerTunnel
+		addr := fmt.Sprintf("10.250.%d.%d:15353", (miniAddrSeq.Add(1)>>8)&255, miniAddrSeq.Load()&255)
+		sc, hc := vk.BufPipe(addr, "127.0.0.1:15353")
+		w.cleanup = append(w.cleanup, func() { hc.Close() })
+		w.seq++
+		w.vL = &c04End{c: &miniClient{n: w.nb, hc: hc, sc: sc, ConnID: "server-ingress-" + addr}, node: w.nb, role: "victimL",
+			mark: fmt.Sprintf("<<C04-victimL-srv-%s-%d>>", addr, w.seq)}
+		return nil
+	}
 	e, err := w.newEnd(w.nb, "victimL", w.L.ClientID, w.L.Secret)
 	if err != nil {
 		return err
@@ -345,6 +381,18 @@ func (w *c04World) victimListenPrepare() error {
 
 func (w *c04World) victimListenSend() {
 	e := w.vL
+	if w.cell.Kind == "serverlisten" {
+		id, err := w.nb.SM.StartServerTunnel(w.mapID, e.c.sc)
+		if err != nil {
+			e.err = err.Error()
+			e.ack = &packet.TunnelOpenAckResponse{Success: false, Error: err.Error()}
+		} else {
+			w.tunnel = id // server-chosen id: "server-udp-<mapping>-<nanos>", what the requester presents
+			e.ack = &packet.TunnelOpenAckResponse{TunnelID: id, Success: true}
+		}
+		w.logf("server ingress tunnel started: id=%s err=%q", id, e.err)
+		return
+	}
 	w.open(e, &packet.TunnelOpenRequest{MappingID: w.mapID, TunnelID: w.tunnel})
 	w.logf("victimL open: ack=%s err=%q", c04AckStr(e.ack), e.err)
 }
@@ -386,6 +434,9 @@ func (w *c04World) setMapState() error {
 	case "active":
 		return nil
 	case "revoked":
+		if w.cell.Kind == "serverlisten" {
+			return w.n.CCS.RevokeMapping(w.mapID, w.T.ClientID, "verif")
+		}
 		return w.n.CCS.RevokeMapping(w.mapID, w.L.ClientID, "verif")
 	case "revoked-reactivated":
 		// revoked by a party, afterwards the status field is set back to active (what the
@@ -719,7 +770,11 @@ func c04RunCell(t *testing.T, run *vk.Run, cell c04Cell, idx int) (obs c04Obs, o
 	}
 	w.rq = rq
 	if cell.Identity == "unauth-p1" {
-		r, _ := rq.c.Phase1(w.L.ClientID, "tunnel")
+		claim := w.L.ClientID
+		if cell.Kind == "serverlisten" {
+			claim = w.T.ClientID
+		}
+		r, _ := rq.c.Phase1(claim, "tunnel")
 		if r == nil || r.Challenge == "" {
 			return fail("phase1 gave no challenge")
 		}
@@ -782,7 +837,14 @@ func c04RunCell(t *testing.T, run *vk.Run, cell c04Cell, idx int) (obs c04Obs, o
 	// then the legitimate parties that arrive after the requester
 	switch cell.Tunnel {
 	case "none":
-		if !legit {
+		if cell.Kind == "serverlisten" {
+			// nobody but the server can be the source; the target dials the id it is told
+			if !legit && cell.MapState == "active" {
+				if err := w.victimTargetOpen(); err != nil {
+					return fail("late victim target: %v", err)
+				}
+			}
+		} else if !legit {
 			if err := w.victimListenOpen(); err != nil {
 				return fail("late victim listen: %v", err)
 			}
@@ -797,19 +859,19 @@ func c04RunCell(t *testing.T, run *vk.Run, cell c04Cell, idx int) (obs c04Obs, o
 			}
 		}
 	case "waiting", "remote", "racing":
-		if !legit && cell.MapState == "active" && (cell.Tunnel != "racing" || c04Ok(w.vL)) {
+		if cell.Kind != "serverlisten" && !legit && cell.MapState == "active" && (cell.Tunnel != "racing" || c04Ok(w.vL)) {
 			if err := w.victimTargetOpen(); err != nil {
 				return fail("late victim target: %v", err)
 			}
 		}
 	}
-	if cell.Tunnel == "none" && !legit && c04Ok(w.vL) && w.write(w.vL) {
+	if cell.Tunnel == "none" && cell.Kind != "serverlisten" && !legit && c04Ok(w.vL) && w.write(w.vL) {
 		b := c04BridgeOf(w.nb, w.vL)
 		expect := b != nil && b.GetTargetConnectionID() != "" && b.GetSourceConnectionID() != ""
 		w.logf("late victimL marker located at %q", w.locate(w.vL.mark, expect))
 	}
 	if cell.Tunnel != "served" && c04Ok(w.vT) && w.write(w.vT) {
-		w.logf("late victimT marker located at %q", w.locate(w.vT.mark, w.vTFirst && c04BridgeOf(w.nb, w.vT) != nil))
+		w.logf("late victimT marker located at %q", w.locate(w.vT.mark, cell.Kind != "serverlisten" && w.vTFirst && c04BridgeOf(w.nb, w.vT) != nil))
 	}
 	// the requester's own marker (injection towards a victim)
 	if w.write(rq) {
@@ -895,6 +957,16 @@ func c04Cells(tunnels []string) []c04Cell {
 						if k == "conncode" && cr != "id" && cr != "id+wrong" && cr != "resume" && cr != "none" {
 							continue // empty secret: "id+secret" is the same request as "id"; no near misses of an empty secret
 						}
+						if k == "serverlisten" && tu == "served" {
+							// on the current tree a target joining a server-listened tunnel over a
+							// TCP-like transport is classified as a re-connecting SOURCE
+							// (handleExistingBridge: extractClientID()==0 == ListenClientID), so a served
+							// pair cannot be established; not this property's concern
+							continue
+						}
+						if k == "serverlisten" && (id == "listen" || (strings.HasPrefix(cr, "id+") && cr != "id+secret" && cr != "id+wrong")) {
+							continue // no listen client exists; near misses are covered by the keyed kind
+						}
 						out = append(out, c04Cell{Kind: k, Tunnel: tu, MapState: ms, Identity: id, Cred: cr})
 					}
 				}
@@ -961,7 +1033,7 @@ func TestVerifC04Race(t *testing.T) {
 	n := run.Pick(150, 3000)
 	for i := 0; i < n; i++ {
 		cell := c04Cell{
-			Kind:     c04Kinds[r.Intn(len(c04Kinds))],
+			Kind:     c04Kinds[r.Intn(2)], // a server-chosen tunnel id cannot be raced for
 			Tunnel:   "racing",
 			MapState: c04MapStates[r.Intn(len(c04MapStates))],
 			Identity: c04Identities[r.Intn(len(c04Identities))],
@@ -1019,6 +1091,200 @@ func TestVerifC04Remote(t *testing.T) {
 	run.Floor("cells_executed", int64(len(cells)))
 	run.Floor("entitled_admitted|tunnel=remote", 1)
 	run.Floor("entitled_saw_peer_data|tunnel=remote", 1)
+}
+
+// ---------------------------------------------------------------------------------
+// Revocation in flight: an entitled requester's TunnelOpen is held (gated storage double
+// under node-a) right after its credential validation has read the mapping; meanwhile the
+// mapping is revoked / set inactive through a SECOND service instance (node-b) on the
+// same store, and that call returns. Then the open is released. When both have returned
+// the mapping is revoked/inactive by every reading of the statement, so a fresh
+// TunnelOpen by the listen client must be refused. (The held open itself was validated
+// before the revocation and gets no verdict.)
+
+type c04Inflight struct {
+	Kind      string `json:"kind"`      // keyed | conncode
+	Requester string `json:"requester"` // listen (no bridge yet) | target (joins the victim's waiting bridge)
+	Action    string `json:"action"`    // revoke | inactive
+	GateAt    int    `json:"gate_at"`   // the open is held before its n-th read of the mapping record
+}
+
+func c04RunInflight(t *testing.T, run *vk.Run, c c04Inflight, idx int) {
+	cell := c04Cell{Kind: c.Kind, Tunnel: "none", MapState: "active", Identity: c.Requester, Cred: "id"}
+	if c.Requester == "target" {
+		cell.Tunnel = "waiting"
+	}
+	w := &c04World{t: t, run: run, cell: cell}
+	defer w.close()
+	bg, cancel := context.WithCancel(context.Background())
+	w.cleanup = append(w.cleanup, cancel)
+	mem := memory.New(bg)
+	gate := vk.NewGated("node-a", mem)
+	gate.SetHook(nil)
+	w.n = newMiniNode(t, miniOpts{NodeID: "node-a", Store: gate, NoCommands: true})
+	w.nb = w.n
+	admin := newMiniNode(t, miniOpts{NodeID: "node-b", Store: mem, NoCommands: true})
+	defer admin.Close()
+	if err := w.populate(idx); err != nil {
+		run.Count("cells_setup_failed", 1)
+		run.Observe(fmt.Sprintf("setup_failed|inflight-%d", idx), err.Error())
+		return
+	}
+	if cell.Tunnel == "waiting" {
+		if err := w.victimListenOpen(); err != nil || !c04Ok(w.vL) {
+			run.Count("cells_setup_failed", 1)
+			return
+		}
+	}
+	var id int64
+	var sec string
+	if c.Requester == "listen" {
+		id, sec = w.L.ClientID, w.L.Secret
+	} else {
+		id, sec = w.T.ClientID, w.T.Secret
+	}
+	rq, err := w.newEnd(w.n, "requester", id, sec)
+	if err != nil {
+		run.Count("cells_setup_failed", 1)
+		return
+	}
+	w.rq = rq
+
+	var armed atomic.Bool
+	var reads atomic.Int32
+	reached, hold := make(chan struct{}), make(chan struct{})
+	var releaseOnce sync.Once
+	release := func() { releaseOnce.Do(func() { close(hold) }) }
+	defer release()
+	suffix := ":" + w.mapID
+	gate.SetHook(func(tier, op, key string) error {
+		if armed.Load() && op == "Get" && strings.HasSuffix(key, suffix) {
+			if int(reads.Add(1)) == c.GateAt {
+				close(reached)
+				<-hold
+			}
+		}
+		return nil
+	})
+	armed.Store(true)
+	done := make(chan struct{})
+	go func() {
+		defer close(done)
+		w.open(rq, &packet.TunnelOpenRequest{MappingID: w.mapID, TunnelID: w.tunnel})
+	}()
+	gated := false
+	select {
+	case <-reached:
+		gated = true
+		run.Count("open_held_after_validation_read", 1)
+	case <-done:
+		run.Count("gate_not_reached", 1)
+	case <-time.After(10 * time.Second):
+		run.Count("watchdog_inflight", 1)
+		release()
+		return
+	}
+	// the administrative action through the other service instance; it returns before the
+	// held open continues
+	var actErr error
+	switch c.Action {
+	case "revoke":
+		actErr = admin.CCS.RevokeMapping(w.mapID, w.T.ClientID, "verif-admin")
+	case "inactive":
+		actErr = admin.CC.UpdatePortMappingStatus(w.mapID, models.MappingStatusInactive)
+	}
+	w.logf("%s through node-b while the open is held: err=%v", c.Action, actErr)
+	release()
+	select {
+	case <-done:
+	case <-time.After(10 * time.Second):
+		run.Count("watchdog_inflight", 1)
+		return
+	}
+	armed.Store(false)
+	gate.SetHook(nil)
+	if actErr != nil {
+		run.Count("cells_setup_failed", 1)
+		return
+	}
+	w.logf("held open returned: ack=%s err=%q", c04AckStr(rq.ack), rq.err)
+	run.Eval(1)
+	run.Count("cells_executed", 1)
+	if gated {
+		run.Distinct(fmt.Sprintf("%+v", c))
+	}
+	// stored state as the second instance reads it (observation)
+	stored := map[string]any{}
+	if m, err := admin.CC.GetPortMapping(w.mapID); err == nil {
+		stored["status"], stored["is_revoked"] = string(m.Status), m.IsRevoked
+		lost := (c.Action == "revoke" && !m.IsRevoked) || (c.Action == "inactive" && m.Status == models.MappingStatusActive)
+		if lost {
+			run.Count("stored_state_lost_the_admin_action", 1)
+		}
+	} else {
+		stored["error"] = err.Error()
+	}
+	// a fresh, entitled-looking open after both calls returned
+	fresh, err := w.newEnd(w.n, "fresh-listen", w.L.ClientID, w.L.Secret)
+	if err != nil {
+		run.Count("cells_setup_failed", 1)
+		return
+	}
+	w.open(fresh, &packet.TunnelOpenRequest{MappingID: w.mapID, TunnelID: w.tunnel + "-fresh"})
+	w.logf("fresh open by the listen client: ack=%s err=%q", c04AckStr(fresh.ack), fresh.err)
+	att := ""
+	if b := c04BridgeOf(w.n, fresh); b != nil {
+		att = c04Side(b, fresh) + "@" + b.GetTunnelID()
+	}
+	detail := map[string]any{"case": c, "stored_after": stored, "fresh_ack": c04AckStr(fresh.ack), "fresh_attached_as": att, "trace": w.trace}
+	switch {
+	case c04Ok(fresh) || att != "":
+		run.Violation("C04:admitted|tunnel=revoke-in-flight|why=mapping-not-valid", detail)
+	case fresh.ack == nil:
+		run.Violation("C04:no-failure-ack|tunnel=revoke-in-flight|why=mapping-not-valid", detail)
+	default:
+		run.Count("refused_with_failure_ack", 1)
+	}
+	if idx < 2 {
+		run.Sample(detail)
+	}
+}
+
+func TestVerifC04RevokeInFlight(t *testing.T) {
+	run := vk.Start(t, "C04", "inflight")
+	defer run.Finish()
+	run.Rule("product mapping-kind{keyed,conncode} x requester{listen opening a new tunnel, target joining a waiting bridge (conncode only: the id-only target path)} x admin action{RevokeMapping, status->inactive} issued through a second service instance on the same store while the requester's TunnelOpen is held by a gated storage double right after its validation read of the mapping (before its 2nd read of the mapping record); repeated; distinct = case whose open really was held")
+	gateAt := int(envIntC04("C04_GATE_AT", 2))
+	var cases []c04Inflight
+	for _, k := range []string{"keyed", "conncode"} {
+		for _, a := range []string{"revoke", "inactive"} {
+			cases = append(cases, c04Inflight{Kind: k, Requester: "listen", Action: a, GateAt: gateAt})
+		}
+	}
+	for _, a := range []string{"revoke", "inactive"} {
+		cases = append(cases, c04Inflight{Kind: "conncode", Requester: "target", Action: a, GateAt: gateAt})
+	}
+	reps := run.Pick(3, 20)
+	n := 0
+	for r := 0; r < reps; r++ {
+		for _, c := range cases {
+			run.Case(fmt.Sprintf("%+v", c), nil)
+			c04RunInflight(t, run, c, 200000+n)
+			n++
+		}
+	}
+	run.Floor("cells_executed", int64(n-2))
+	run.Floor("open_held_after_validation_read", int64(n-2))
+	run.Floor("refused_with_failure_ack", 0)
+}
+
+func envIntC04(name string, def int64) int64 {
+	if v := os.Getenv(name); v != "" {
+		if x, err := strconv.ParseInt(v, 10, 64); err == nil {
+			return x
+		}
+	}
+	return def
 }
 
 var _ = sort.Strings
